@@ -189,15 +189,22 @@ func TestCheck(t *testing.T) {
 		case "fragmented":
 			// a ClientHello split across several records (RFC 8446 section 5.1): larger than one record, or a small one cut at arbitrary points
 			opts.ECH = []hellogen.ECHState{hellogen.ECHNone, hellogen.ECHGrease}[rng.IntN(2)]
-			if rng.IntN(2) == 0 {
+			switch rng.IntN(8) {
+			case 0, 1, 2:
 				opts.TargetSize = 16385 + rng.IntN(45000)
-			} else {
+			case 3:
+				// the largest handshake messages there are: crypto/tls reads bodies of up to 65536 bytes
+				opts.TargetSize = 65536 + 4 - rng.IntN(6)
+			default:
 				opts.TargetSize = 0
 			}
 			k.hello = hellogen.Plain(rng, opts)
 			msg := k.hello.Message()
-			if len(msg) > 65536 {
+			if len(msg) > 65536+4 {
 				return
+			}
+			if len(msg) > 65536-4 {
+				r.Count("fragmented_hellos_within_4_bytes_of_the_limit", 1)
 			}
 			ver := []uint16{0x0301, 0x0303}[rng.IntN(2)]
 			for len(msg) > 0 {
